@@ -540,7 +540,7 @@ def run(ctx):
         raise SystemExit(2)
     vlib.regen_consts("Expire", "ttlsim")
     targets = ["Expire/Model.vo", "Expire/Proofs.vo", "Expire/ProofsRel.vo", "Expire/ProofsCmd.vo", "Expire/ProofsTrace.vo",
-               "Expire/ProofsMore.vo", "Expire/ProofsClass.vo", "Expire/ProofsLocal.vo", "Properties/C10.vo"]
+               "Expire/ProofsMore.vo", "Expire/ProofsClass.vo", "Expire/ProofsLocal.vo", "Expire/ProofsMono.vo", "Properties/C10.vo"]
     proofs_ok, info = ctx.check_proofs(make_targets=targets, gate_paths=["Expire", "Common", "Properties/C10"])
     mok, mout, _ = vlib.model_build("Expire")
     if not mok:
